@@ -1,7 +1,7 @@
 (* C04 -- non-vacuity: concrete reachable states meet the hypotheses of the theorems. *)
 From Coq Require Import List Arith Lia Bool.
 From Verif.lib Require Import FinSet.
-From Verif.C04 Require Import Model Proofs ProofsFun ProofsMesh ProofsQuery ProofsClosure.
+From Verif.C04 Require Import Model Proofs ProofsFun ProofsMesh ProofsQuery ProofsClosure Boundary Supports.
 Import ListNotations.
 
 (* 2-D, degrees (2,1), 3x2 coarse cells, disparity 1; marks on two levels in one call,
@@ -139,3 +139,12 @@ Example ex_closure_hyp :
   exists r, hs_refine (run (hs_init ex_axes (Some 1)) [Refine [(0, (CList, [[0;0]]))] false])
                       [(1, (CList, [[1;1]]))] false = Ok r.
 Proof. split; [reflexivity|]. eexists. vm_compute. reflexivity. Qed.
+
+(* TEST of the support-query model (no theorem yet): on the example the supports of all active
+   functions cover all active cells, and a two-level query merges the per-level results *)
+Example ex_supports_cover_test : supports_cover_b ex_st = true.
+Proof. vm_compute. reflexivity. Qed.
+
+Example ex_multi_level_query_test :
+  map (@length mi) (compute_supports ex_st [[]; [[0;1]]; [[0;0]]]) = [0; 1; 4].
+Proof. vm_compute. reflexivity. Qed.
